@@ -293,13 +293,13 @@ fn vis_of(c: char, eve: radicle::node::NodeId) -> Option<Visibility> {
 /// machine may be loaded).
 fn fetch_ok(node: &mut NodeHandle<MockSigner>, rid: RepoId, from: radicle::node::NodeId) -> Result<(), String> {
     let mut last = String::new();
-    for _ in 0..6 {
+    for i in 0..10 {
         match node.handle.fetch(rid, from, Duration::from_secs(60)) {
             Ok(FetchResult::Success { .. }) => return Ok(()),
             Ok(FetchResult::Failed { reason }) => last = reason,
             Err(e) => last = e.to_string(),
         }
-        std::thread::sleep(Duration::from_secs(1));
+        std::thread::sleep(Duration::from_secs(1 + i / 3));
     }
     Err(format!("set-up fetch failed: {last}"))
 }
@@ -519,26 +519,36 @@ fn main() {
             ctx.record(&input, o);
         }
         // (b) decision table through the real worker
-        let scenarios: Vec<String> = if ctx.quick() {
-            // (the corpus already runs the six decisive ones; these add the other allow-list shapes)
-            ["w a r o 0", "w a r ro 0", "w n r ro 1", "w b r r 1"].iter().map(|s| s.to_string()).collect()
+        // End-to-end scenarios are built in (not corpus files): a scenario that stays inconclusive after its
+        // retries (fetch time-outs on an overloaded machine) is NOT recorded — it is neither a pass nor a
+        // failure — and is counted in the evidence (`e2e-inconclusive-skipped`, note `skipped`).
+        let decisive = ["w a p - 0", "w a r r 0", "w a r - 1", "w a r - 0", "w b p - 0", "w n p - 0"];
+        let mut scenarios: Vec<String> = if ctx.quick() {
+            decisive.iter().chain(["w a r o 0", "w a r ro 0", "w n r ro 1", "w b r r 1"].iter()).map(|s| s.to_string()).collect()
         } else {
             all_scenarios()
         };
+        // (c) histories: visibility changes that reach the serving node through a fetch
+        // `v p n e`: made private by the other delegate's first identity operation, then a stranger fetches
+        scenarios.push("v p n e".to_string());
+        if !ctx.quick() {
+            for h in ["v p e e", "v p en e", "v e n e", "v p n b", "v p ne e", "v e np e", "v p - e", "v e - e", "v p nen e"] {
+                scenarios.push(h.to_string());
+            }
+        }
+        let mut skipped: Vec<String> = vec![];
         for input in scenarios {
             let o = run_case(&input);
+            if o.output.starts_with("inconclusive") {
+                ctx.count("e2e-inconclusive-skipped");
+                skipped.push(format!("{input} ({})", o.output));
+                continue;
+            }
             ctx.record(&input, o);
         }
-        // (c) histories: visibility changes that reach the serving node through a fetch
-        let histories: &[&str] = if ctx.quick() {
-            // (the corpus runs `v p n e`: made private by the other delegate's first identity operation)
-            &[]
-        } else {
-            &["v p e e", "v p en e", "v e n e", "v p n b", "v p ne e", "v e np e", "v p - e", "v e - e", "v p nen e"]
-        };
-        for input in histories {
-            let o = run_case(input);
-            ctx.record(input, o);
+        if !skipped.is_empty() {
+            eprintln!("C12: {} end-to-end scenario(s) inconclusive and skipped: {}", skipped.len(), skipped.join("; "));
+            ctx.note("skipped", skipped.join("; "));
         }
     }
     // Shut the nodes down and remove their directories.
